@@ -205,8 +205,12 @@ class C14(LoopProp):
                                 continue
                             if size > 100000 and b > 8 and tier == "quick":
                                 continue
-                            name = rng.choice(["f.bin", "sub/f.bin", "sub\\f.bin"]) if direction == "down" else "f.bin"
+                            name = rng.choice(["f.bin", "sub/f.bin", "sub\\f.bin"]) if direction == "down" else rng.choice(["", "sub/"])
                             cases.append((mode, ip, direction, b, w, t, size, name))
+        # directed: nested paths in both directions and both port modes are always exercised
+        for mode in ["multi", "single"]:
+            cases.append((mode, "127.0.0.1", "up", 512, 1, 5, 700, "sub/"))
+            cases.append((mode, "127.0.0.1", "down", 512, 1, 5, 700, "sub/f.bin"))
         if tier == "thorough":
             for w in (8, 64):
                 cases.append(("multi", "127.0.0.1", "down", 8, w, 1, 8 * 65537 + 3, "f.bin"))
@@ -237,6 +241,7 @@ class C14(LoopProp):
                 cdir = os.path.join(root, "cli")
                 shutil.rmtree(cdir, ignore_errors=True)
                 os.makedirs(os.path.join(cdir, "rd"))
+                os.makedirs(os.path.join(cdir, "sub"))
                 data = gen_bytes(size, (b + w + size) % 256)
                 desc = "tftpc %s %s %s b=%d w=%d t=%d size=%d name=%s" % (direction, mode, ip, b, w, t, size, name)
                 common = ["-i", ip, "-p", str(port), "-b", str(b), "-w", str(w), "-t", str(t)]
@@ -256,14 +261,17 @@ class C14(LoopProp):
                         elif others:
                             viol.append((desc, "extra files %s" % others, "download stored under a wrong name", "download-name"))
                     else:
-                        local = os.path.join(cdir, "up-%d.bin" % size)
+                        rel = name + "up-%d.bin" % size          # name is "" or "sub/" for uploads
+                        local = os.path.join(cdir, rel)
                         with open(local, "wb") as fh:
                             fh.write(data)
                         target = os.path.join(sdir, os.path.basename(local))
-                        if os.path.exists(target):
-                            os.remove(target)
+                        stray = os.path.join(sdir, rel)
+                        for old in {target, stray}:
+                            if os.path.exists(old):
+                                os.remove(old)
                         # relative path: the client passes the name through convert_file_path, which strips a leading '/'
-                        r = subprocess.run([tftpc, os.path.basename(local), "-u"] + common, cwd=cdir, stdout=subprocess.PIPE, stderr=subprocess.STDOUT, timeout=120)
+                        r = subprocess.run([tftpc, rel, "-u"] + common, cwd=cdir, stdout=subprocess.PIPE, stderr=subprocess.STDOUT, timeout=120)
                         # the server worker writes after the client has finished sending: allow it a moment
                         got = None
                         for _ in range(40):
@@ -275,6 +283,8 @@ class C14(LoopProp):
                         if got != data:
                             viol.append((desc, "server file %s" % ("missing" if got is None else "differs (%d bytes)" % len(got)),
                                          "upload does not leave a byte-identical file under its basename in the receive directory", "upload-differs"))
+                        elif stray != target and os.path.exists(stray):
+                            viol.append((desc, "also stored as %s" % rel, "upload stored under a name other than its basename", "upload-name"))
                 except subprocess.TimeoutExpired:
                     viol.append((desc, "timeout", "client did not finish within 120 s", "client-hangs"))
                 ran += 1
